@@ -252,7 +252,7 @@ struct Judge {
   double RES;                  // intersection residual tolerance (before the multi-circuit factor)
   std::string where;
   mc::Fields F;
-  void failk(const char* kind, const std::string& msg) { F[0].second = kind; { std::string rel, pr; for (auto& f : F) { if (f.first == "relation") rel = "." + f.second; if (f.first == "pair" && getenv("C17_DEBUG")) pr = "." + f.second; } ctx.count(std::string("failclass.") + kind + "." + E.name + rel + pr); } ctx.fail(where + " " + kind, msg, F); }
+  void failk(const char* kind, const std::string& msg) { F[0].second = kind; { std::string rel; for (auto& f : F) if (f.first == "relation") rel = "." + f.second; ctx.count(std::string("failclass.") + kind + "." + E.name + rel); } ctx.fail(where + " " + kind, msg, F); }
   double restol(double x, double y) const { return RES * std::max(1.0, std::max(std::fabs(x), std::fabs(y)) / (2e7 * sc)); }
   // (i) soundness: independent evaluation of both lines; returns residual, sets crossing sine
   double residual(const GeodesicLine& ix, const GeodesicLine& iy, double x, double y, double& sinth) const {
@@ -424,7 +424,8 @@ int main(int argc, char** argv) {
                 // coincident great circles: the L1 distance to the nearest coincidence line is the minimum
                 ld dmin = sph_coinc_mindist(S, p0x, p0y);
                 double tol = 4 * J.coinctol(p.first, p.second);
-                ctx.worstf("ix.closest.coincident_dist_err_over_tol", std::fabs(dlib - (double)dmin) / tol, [&] { return J.where; });
+                if (std::fabs(dlib - (double)dmin) <= tol)      // failing cases are reported as violations / known findings, not as a "worst error"
+                  ctx.worstf("ix.closest.coincident_dist_err_over_tol", std::fabs(dlib - (double)dmin) / tol, [&] { return J.where; });
                 if (!(std::fabs(dlib - (double)dmin) <= tol)) J.failk("coincident-closest-not-minimal", "coincident lines: returned L1 distance " + fx(dlib) + ", minimal " + fmt((double)dmin));
               } else if (have) {
                 const double pt = J.postol(sinth, p.first, p.second);
